@@ -171,6 +171,43 @@ def run(ctx):
                         if nm not in mine_models and stored is not None and stored.get_model_sig(nm) is not None:
                             ctx.fail(None, 'the signature stored on %s lists model %s, which is routed to %s'
                                      % (alias, nm, other), rep)
+                # a further release after one side lost its last model: a mutation for the other side's model and a
+                # new model routed to the emptied side
+                if tries == 2:
+                    add2 = {'t': 'AddField', 'model': 'Book', 'field': 'pages2', 'ftype': 'IntegerField', 'initial': None,
+                            'attrs': [['null', 'true']]}
+                    r2 = sigs.real_simulate(final, 'vapp', [sigs.real_mutation(add2)])
+                    spec2 = dbrig.spec_from_sig(r2[1])
+                    spec2['apps'] = [a for a in spec2['apps'] if a['id'] == 'vapp']
+                    side_of = dict(zip(names, split))
+                    emptied = side_of['LogEntry']
+                    spec2['apps'][0]['models'].append({
+                        'name': 'Notice', 'table': 'vapp_notice', 'unique_together': [], 'index_together': [], 'indexes': [],
+                        'constraints': [], 'fields': [{'name': 'id', 'type': 'AutoField', 'attrs': {'primary_key': True},
+                                                       'related': None}]})
+                    routes2 = dict(routes)
+                    routes2[('vapp', 'notice')] = emptied
+                    evorig.set_routes(routes2, catch_all, app_level)
+                    evorig.install_models(spec2)
+                    evorig.set_evolutions('vapp', [
+                        {'label': 'e1', 'mutations': [sigs.real_mutation(m) for m in muts]},
+                        {'label': 'e2', 'mutations': [sigs.real_mutation(add2)]}])
+                    rep2 = dict(rep, second_release=[add2], new_model_on=emptied)
+                    for alias in ('default', 'other'):
+                        r = evorig.run_evolver(alias)
+                        ctx.count('second_release:%s' % r[0])
+                        if r[0] != 'ok':
+                            ctx.fail(None, 'second release: evolving %s fails although every mutation is valid: %s'
+                                     % (alias, str(r[1])[:150]), rep2)
+                            continue
+                        has_notice = 'vapp_notice' in user_tables(alias)
+                        if has_notice != (alias == emptied):
+                            ctx.fail(None, 'second release: table vapp_notice %s on %s'
+                                     % ('missing' if alias == emptied else 'created', alias), rep2)
+                        cols = dbrig.abs_schema(alias).get('vapp_book', {}).get('columns', {})
+                        if (side_of['Book'] == alias) != ('pages2' in cols):
+                            ctx.fail(None, 'second release: column vapp_book.pages2 %s on %s'
+                                     % ('missing' if side_of['Book'] == alias else 'present', alias), rep2)
             finally:
                 evorig.set_routes({})
     # ---- failing evolution on the non-default database must roll back there (F10) -------------
